@@ -38,7 +38,7 @@ JudgeArchRT(rec) ==
     ELSE Checks("arch-name",
        << <<rec.ok2, "rendered architecture name is rejected">>,
           <<rec.t2 = rec.t1, "architecture widened or narrowed by a parse/render/parse round trip">>,
-          <<rec.same_control, "MarshalControl differs from String()">>,
+          <<rec.same_control \/ rec.t1 = Triple(<<>>, <<>>, <<>>), "MarshalControl differs from String()">>,     \* (the zero Arch is an unset field: marshalled as "")
           <<rec.via_control.ok /\ rec.via_control.t = rec.t1, "UnmarshalControl disagrees with ParseArch">>,
           <<rec.t1 = RefArchTriple(rec.in.name), "architecture name parsed to the wrong (abi, os, cpu)">> >>)
 
